@@ -1364,9 +1364,12 @@ Theorem ts_nondecreasing_refuted :
   fix_C20_2 = false ->
   exists vs g ds n, ~ StronglySorted Z.le (map vts (fst (run_cfg vs g ds n))).
 Proof.
-  intros _. exists kf2_vals, [0; 0; 0; 0], false, 3%nat.
-  remember (map vts (fst (run_cfg kf2_vals [0; 0; 0; 0] false 3))) as l eqn:E. vm_compute in E.
-  subst l. intros H. inversion H as [|? ? _ Hf]; subst. inversion Hf as [|? ? Hlt _]; subst. lia.
+  intros Hfix. unfold fix_C20_2 in Hfix.
+  first
+    [ discriminate Hfix      (* once the patch is in, the statement is vacuous *)
+    | exists kf2_vals, [0; 0; 0; 0], false, 3%nat;
+      remember (map vts (fst (run_cfg kf2_vals [0; 0; 0; 0] false 3))) as l eqn:E; vm_compute in E;
+      subst l; intros H; inversion H as [|? ? _ Hf]; subst; inversion Hf as [|? ? Hlt _]; subst; lia ].
 Qed.
 
 (** KF-C20-1: a configuration with int64 fields on which Next panics *)
@@ -1375,7 +1378,12 @@ Definition kf1_vals : list value :=
 
 Theorem no_panic_refuted :
   fix_C20_1 = false -> exists vs g ds n, snd (run_cfg vs g ds n) = EPanic.
-Proof. intros _. exists kf1_vals, [1; 2; 3], false, 2%nat. vm_compute. reflexivity. Qed.
+Proof.
+  intros Hfix. unfold fix_C20_1 in Hfix.
+  first
+    [ discriminate Hfix
+    | exists kf1_vals, [1; 2; 3], false, 2%nat; vm_compute; reflexivity ].
+Qed.
 
 (** ** soundness of the executable order clause K_P applies to the
     implementation's observations ([FakeQCheck.ts_sorted_from]) *)
